@@ -54,8 +54,13 @@ def run_mustflow(rep, F, entries):
                 sites = [None]
                 allres = [res]
             else:
-                cs = mustflow.find_calls(F, fid, lambda to, c: to.endswith(src) or F.key(to) .endswith(src) if to in F.fns else to.endswith(src))
+                alts = src.split("|")
+                cs = mustflow.find_calls(F, fid, lambda to, c: any((to.endswith(a) or F.key(to).endswith(a)) if to in F.fns else to.endswith(a) for a in alts))
                 if not cs:
+                    if all("::" not in a for a in alts):
+                        # a std adaptor by bare name (try_fold / fold / checked_add): its absence is a change of shape, not a dropped term
+                        rep.lost("mustflow source `%s` of %s not found (the accumulation was rewritten: re-anchor)" % (src, e["fn"]))
+                        continue
                     rep.violation("MF", "%s|%s|missing" % (e["fn"], src), "%s no longer calls %s: the term it contributed (%s) is missing from the total" % (e["fn"], src, e.get("what", "")), {"function": e["fn"], "source": src})
                     continue
                 allres = [ff.run(("call", c.bb)) for c in cs]
